@@ -9,7 +9,9 @@ SYMBOLS = [b'+=', b'-=', b'*=', b'/=', b'%=', b'..=', b'==', b'~=', b'!=', b'<='
 
 NAMES_PLAIN = [b'a', b'x', b'foo', b'_', b'_x9', b'Z', b'player_1', b'b2']
 NAMES_KW = [b'endx', b'_if', b'nilly', b'android', b'do_', b'format', b'notes', b'xor', b'iff', b'ends', b'forx',
-            b'inx', b'returns', b'e', b'e5', b'x0b1', b'p']
+            b'inx', b'returns', b'e', b'e5', b'x0b1', b'p',
+            # reserved or special in neighbouring dialects, ordinary names here
+            b'_ENV', b'continue']
 NAMES_GLYPH = [b'\x8e', b'\x97x', b'x\x83', b'\x80\xff', b'end\x8b', b'\x8bend', b'in\x80', b'or\xff', b'_\x99_',
                b'do\x91if', b'\xe3\x81']
 # glyph identifiers whose bytes coincide with byte-order marks of Unicode text files (P8SCII code is not Unicode)
